@@ -88,9 +88,13 @@ func NewRequestPacket(ntskeData ntske.Data) (pkt Packet, uniqueid []byte) {
 	cookie.Cookie = ntskeData.Cookie[0]
 	pkt.Cookies = append(pkt.Cookies, cookie)
 
-	// Add cookie extension fields here s.t. 8 cookies are available after response.
+	// Add cookie extension fields here s.t. 8 cookies are available after response,
+	// as far as the request still fits the maximum packet size.
 	cookiePlaceholderData := make([]byte, len(cookie.Cookie))
 	for i := len(ntskeData.Cookie); i < numStoredCookies; i++ {
+		if pkt.encodedLen()+extFieldLen(len(cookiePlaceholderData)) > MaxPacketLen {
+			break
+		}
 		var cookiePlacholder CookiePlaceholder
 		cookiePlacholder.Cookie = cookiePlaceholderData
 		pkt.CookiePlaceholders = append(pkt.CookiePlaceholders, cookiePlacholder)
@@ -110,10 +114,13 @@ func EncodePacket(b *[]byte, pkt *Packet) {
 	if len(*b) != ntpPacketLen {
 		panic("unexpected NTP header")
 	}
-	if cap(*b) < MaxPacketLen {
-		*b = append(make([]byte, 0, MaxPacketLen), (*b)...)
+	// Never encode into less space than the packet needs: the pack functions
+	// below assume that the buffer is large enough.
+	n := max(MaxPacketLen, pkt.encodedLen())
+	if cap(*b) < n {
+		*b = append(make([]byte, 0, n), (*b)...)
 	}
-	*b = (*b)[:MaxPacketLen]
+	*b = (*b)[:n]
 
 	pos := ntpPacketLen
 	pos, err := pkt.UniqueID.pack(*b, pos)
@@ -137,6 +144,36 @@ func EncodePacket(b *[]byte, pkt *Packet) {
 		panic(err)
 	}
 	*b = (*b)[:pos]
+}
+
+func extFieldLen(valueLen int) int {
+	return 4 + (valueLen+3) & ^3
+}
+
+// encodedLen returns the number of bytes EncodePacket produces for pkt,
+// including the NTP header.
+func (pkt *Packet) encodedLen() int {
+	n := ntpPacketLen + extFieldLen(len(pkt.UniqueID.ID))
+	for _, c := range pkt.Cookies {
+		n += extFieldLen(len(c.Cookie))
+	}
+	for _, c := range pkt.CookiePlaceholders {
+		n += extFieldLen(len(c.Cookie))
+	}
+	// authenticator: header, nonce and ciphertext lengths, 16-byte nonce,
+	// ciphertext with 16-byte tag
+	n += 4 + 4 + 16 + (len(pkt.Auth.PlainText)+16+3) & ^3
+	return n
+}
+
+// MaxResponseCookies returns the number of cookies of the given length that
+// fit into a response echoing a unique identifier of the given length.
+func MaxResponseCookies(uniqueIDLen, cookieLen int) int {
+	n := MaxPacketLen - ntpPacketLen - extFieldLen(uniqueIDLen) - (4 + 4 + 16 + 16)
+	if n < 0 {
+		return 0
+	}
+	return n / extFieldLen(cookieLen)
 }
 
 // DecodePacket decodes a byte slice to a Packet. Authentication is not
